@@ -380,7 +380,15 @@ class Check:
         rng = random.Random(seed)
         problems = gate()
         if problems:
-            raise MachineryError("gate: " + "; ".join(problems[:5]))
+            try:
+                ensure_makefile()
+                mine = set(cone(self.prop_file)) | {"theories/" + self.extract_v}
+            except Exception:
+                mine = None
+            own = [p for p in problems if mine is None or any(p.startswith("coq/" + f + ":") for f in mine) or "_CoqProject" in p]
+            if own:
+                raise MachineryError("gate: " + "; ".join(own[:5]))
+            self.say(f"[{self.pid}] gate warning (files outside this property's cone): " + "; ".join(problems[:3]))
         pinfo = self.proofs(tier)
         self.say(f"[{self.pid}] proofs: obligations={pinfo.get('obligations')} discharged={pinfo.get('discharged')} "
                  f"axioms={pinfo.get('axioms')} broken={pinfo['broken']}")
